@@ -19,7 +19,7 @@ Require Model.Lift Spec.CfgSpec Proofs.LiftTotalFlat Proofs.LiftEdges Model.Incl
 Require Model.Ir Model.Ssa Proofs.SsaNoPanic Proofs.SsaFuel Proofs.SsaClean.
 (* the chain of the actual mirrors (Model.PipelineMirrors) and its bridges *)
 Require Model.Ast Model.Desugar Model.Dom Model.Propagate Model.Justify Model.Clean Spec.ExpandSpec Spec.DomSpec.
-Require Model.LiftFull Proofs.LiftFullTotal Proofs.LiftFullIr.
+Require Model.LiftFull Proofs.LiftFullTotal Proofs.LiftFullIr Proofs.SsaConstruction Proofs.SsaLocalDefs.
 Require Model.PipelineMirrors Proofs.PipelineMirrorsProofs Proofs.MirrorsShape Proofs.MirrorsDom
         Proofs.MirrorsExample.
 Import ListNotations.
@@ -348,6 +348,45 @@ Theorem C01_lifted_children_order_facts :
 Proof. exact Proofs.MirrorsDom.lifted_children_facts. Qed.
 Print Assumptions C01_lifted_children_order_facts.
 
+(* BRIDGE SSA -> propagation (2): ONE DEFINING ASSIGNMENT PER LOCAL in what into_ssa returns --
+   Justify.ldefs_unique, the second hypothesis of C20_propagate_completes.  Until the second
+   audit this was assumed of the mirror's own output (`ssa_output_ok`).  Derived from C14's
+   construction theorems: C14_construction_unique_defs (a versioned name is assigned once), the
+   fact T4 of Proofs.SsaConstruction (a target of the output is versioned exactly when it is a
+   declared local, when the tree walk reaches every block) and an invariant proved here
+   (Proofs.SsaLocalDefs: an assignment TAGGED Local assigns a declared local -- kept by phi
+   insertion, renaming and the re-issue of declarations; the tag is what ldefs_unique goes by,
+   the declaration key is what the construction versions by).  For every frontier and children
+   table: *)
+Theorem C01_into_ssa_unique_local_definitions :
+  forall (frontier children : list (list N)) (c c' : Model.Ir.cfg),
+    Proofs.SsaNoPanic.unversioned c ->
+    Proofs.SsaLocalDefs.tags_ok (Model.Ir.c_decls c) (Model.Ir.c_blocks c) ->
+    Proofs.SsaConstruction.children_cover children (List.length (Model.Ir.c_blocks c)) ->
+    Model.Ssa.into_ssa frontier children c = Model.Ssa.SOk c' ->
+    Model.Justify.ldefs_unique (Model.Justify.all_stmts (Model.Ir.c_blocks c')) = true.
+Proof. exact Proofs.SsaLocalDefs.into_ssa_ldefs_unique. Qed.
+Print Assumptions C01_into_ssa_unique_local_definitions.
+
+(* ... its hypothesis about the tags holds of every graph the lifting mirror returns (the tag
+   of a lifted substitution is what propagate_types found in the declarations for the name) ... *)
+Theorem C01_lifted_graph_tags_agree_with_declarations : forall kind params pfile ploc body c,
+  Model.LiftFull.lift_to_ir kind params pfile ploc body = Ok c ->
+  Proofs.SsaLocalDefs.tags_ok (Model.Ir.c_decls c) (Model.Ir.c_blocks c).
+Proof. exact Proofs.LiftFullIr.lifted_tags_ok. Qed.
+Print Assumptions C01_lifted_graph_tags_agree_with_declarations.
+
+(* ... and the tree walk over the children table the dominator-tree mirror computes reaches
+   every block (Proofs.SsaDomBridge.c15_children_tree, from C15), so in the chain the former
+   hypothesis is a theorem: for EVERY definition and body, whatever lifting makes of it *)
+Theorem C01_chain_ssa_output_unique_local_defs :
+  forall (ord : nat -> list nat -> list nat) (horder : list nat -> list nat),
+    Spec.DomSpec.order_ok ord -> (forall l : list nat, Permutation.Permutation (horder l) l) ->
+    forall (d : Model.PipelineMirrors.definition) (body : Model.Ast.statement),
+      Model.PipelineMirrors.ssa_output_ok ord horder d body = true.
+Proof. exact Proofs.PipelineMirrorsProofs.lifted_ssa_output_ok. Qed.
+Print Assumptions C01_chain_ssa_output_unique_local_defs.
+
 (* THE COMPOSITION.  For every file system in which a canonical non-directory path has a
    file name, every command line, every hash order, every prime and every pair of pass
    budgets: if the program the parser returns meets [program_ok], then the chain ends with
@@ -371,18 +410,18 @@ Print Assumptions C01_lifted_children_order_facts.
      `chain`):
        names_distinct  the declaration keys after the renaming pass are pairwise different
                        (what C10 proves of ITS mirror of the renaming pass; evaluated here);
-       stmt_lits_ok    number literals are non-negative;
-       ssa_output_ok   the graph into_ssa returns has one defining assignment per local --
-                       the second hypothesis of C20_propagate_completes; about the OUTPUT of
-                       the SSA mirror, evaluated, not derived from C14_construction_unique_defs
-                       (see design.d/C01.md for what is missing).
+       stmt_lits_ok    number literals are non-negative.
+     (`ssa_output_ok` -- one defining assignment per local in the graph into_ssa returns, the
+     second hypothesis of C20_propagate_completes -- was a third clause until the second audit;
+     it is now proved: C01_chain_ssa_output_unique_local_defs.)
    Proved, not assumed: the desugarer does not crash (C18), its output is free of sugar and
    has the shape lifting accepts, renaming / lifting / IR lifting return a graph or one of
    the two error reports (C01_lift_to_ir_never_panics), that graph is unversioned, assigns
    declared locals only and is clean, the dominator tree is computed (C15) and its children
    lists are a tree with growing indices, into_ssa returns SOk or the `used before defined`
-   error (no SPanic, no SFuel), what it returns carries no value claim (the first hypothesis
-   of C20), propagation completes at every budget (C20). *)
+   error (no SPanic, no SFuel), what it returns carries no value claim and has one defining
+   assignment per local (the two hypotheses of C20_propagate_completes), propagation completes
+   at every budget (C20). *)
 Theorem C01_pipeline_mirrors_never_panic :
   forall (ord : nat -> list nat -> list nat) (horder : list nat -> list nat) (p : Z) (kv kd : nat),
     Spec.DomSpec.order_ok ord ->
@@ -399,7 +438,7 @@ Theorem C01_pipeline_mirrors_never_panic :
       forall (d23 : bool) (dfuel fuel : nat) (paths libs : list path),
         (forall st, Model.Includes.parse_files canon is_dir is_file read_dir join parent file_name ext_circom
                                                starts_dot has_sep content d23 dfuel fuel paths libs = Ok st ->
-                    Proofs.PipelineMirrorsProofs.program_ok ord horder (parse st)) ->
+                    Proofs.PipelineMirrorsProofs.program_ok (parse st)) ->
         match Model.PipelineMirrors.run_pipeline_mirrors ord horder p kv kd canon is_dir is_file
                 read_dir join parent file_name ext_circom starts_dot has_sep content parse d23 dfuel fuel paths libs with
         | Ok ds => Forall Proofs.PipelineMirrorsProofs.fine ds
@@ -422,7 +461,7 @@ Theorem C01_definition_chain_never_panics :
     forall (d : Model.PipelineMirrors.definition) (body : Model.Ast.statement),
       Model.LiftFull.is_block body = true -> Model.LiftFull.stmt_sugar_free body = true ->
       Model.LiftFull.ast_init_flat body = true ->
-      Model.PipelineMirrors.body_ok ord horder d body = true ->
+      Model.PipelineMirrors.body_ok d body = true ->
       Proofs.PipelineMirrorsProofs.fine (Model.PipelineMirrors.analyse_body ord horder p kv kd d body).
 Proof. exact Proofs.PipelineMirrorsProofs.analyse_body_fine. Qed.
 Print Assumptions C01_definition_chain_never_panics.
@@ -433,7 +472,7 @@ Print Assumptions C01_definition_chain_never_panics.
    renaming + lifting + IR lifting, dominator tree, SSA construction, propagation) ends with
    DROk on an SSA graph that has a two-argument phi statement at the loop header *)
 Example C01_pipeline_mirrors_example :
-  Proofs.PipelineMirrorsProofs.program_ok Model.Dom.id_order (fun l => l) Proofs.MirrorsExample.ex_program /\
+  Proofs.PipelineMirrorsProofs.program_ok Proofs.MirrorsExample.ex_program /\
   (Spec.DomSpec.order_ok Model.Dom.id_order /\ (forall l : list nat, Permutation.Permutation ((fun l => l) l) l)) /\
   Znumtheory.prime 3 /\
   match Proofs.MirrorsExample.ex_run with
